@@ -356,13 +356,34 @@ func parseLiteral(arg string) (any, bool) {
 // callFunc calls a function from the FuncMap with optional VueContext as first argument.
 // If the function's first parameter is *VueContext, the context is passed automatically.
 // Otherwise, all provided arguments are passed directly.
-func (v *Vue) callFunc(ctx *VueContext, fn any, args ...any) (any, error) {
+func (v *Vue) callFunc(ctx *VueContext, fn any, args ...any) (result any, err error) {
 	fnVal := reflect.ValueOf(fn)
-	fnType := fnVal.Type()
-
-	if fnType.Kind() != reflect.Func {
+	if !fnVal.IsValid() || fnVal.Kind() != reflect.Func {
 		return nil, fmt.Errorf("not a function")
 	}
+	if fnVal.IsNil() {
+		return nil, fmt.Errorf("function is nil")
+	}
+	fnType := fnVal.Type()
+
+	// The results must be (value), (value, error) or nothing: say so before calling
+	switch fnType.NumOut() {
+	case 0, 1:
+	case 2:
+		if !fnType.Out(1).Implements(reflect.TypeOf((*error)(nil)).Elem()) {
+			return nil, fmt.Errorf("function's second result must be an error, not %v", fnType.Out(1))
+		}
+	default:
+		return nil, fmt.Errorf("function returns too many values")
+	}
+
+	// A panic while converting the arguments or inside the function is this call's error, not
+	// the end of the process that renders the template (like text/template does for its calls)
+	defer func() {
+		if r := recover(); r != nil {
+			result, err = nil, fmt.Errorf("panic: %v", r)
+		}
+	}()
 
 	// Check if first parameter is *VueContext
 	hasContextParam := false
